@@ -500,7 +500,8 @@ func SpecMatch(pattern string, hasWild bool, s string) bool {
 //@   loop 2 invariant forall t string :: has(m, t) ==> (exists i int :: 0 <= i && i < len(r.TIDs) && r.TIDs[i] == t)
 
 // forEachMatch: the callback is invoked for a cache entry only if a valid listed pattern
-// matches the entry's resource name (NATS wildcard semantics); invalid patterns match nothing.
+// matches the entry's resource name (NATS wildcard semantics), and at most once per entry however
+// many listed patterns match it; invalid patterns match nothing.
 //@ func (*Cache).forEachMatch
 //@   requires c != nil
 //@   assumes forall n string :: has(c.eventSubs, n) ==> c.eventSubs[n] != nil && c.eventSubs[n].cache != nil
@@ -508,10 +509,14 @@ func SpecMatch(pattern string, hasWild bool, s string) bool {
 //@   callback cb requires[C12] e == eventSub && (exists i int :: 0 <= i && i < len(patterns) && patterns[i].pattern != "" &&
 //@       predPatternInv(patterns[i].pattern, patterns[i].hasWild) &&
 //@       ((!patterns[i].hasWild && resourceName == patterns[i].pattern) || (patterns[i].hasWild && (predNoEmptyTok(resourceName) ==> specMatchFrom(patterns[i].pattern, resourceName, 0, 0)))))
+//@   ensures[C12,C19] (resolved(cb) == 0 || resolved(cb) <= old(card(c.eventSubs))) && (len(p) == 0 ==> resolved(cb) == 0)
 //@   safety[C15]
 //@   loop 1 invariant forall i int :: 0 <= i && i < len(patterns) ==> patterns[i].pattern != "" && predPatternInv(patterns[i].pattern, patterns[i].hasWild)
+//@   loop 1 invariant resolved(cb) == 0
 //@   loop 2 invariant forall i int :: 0 <= i && i < len(patterns) ==> patterns[i].pattern != "" && predPatternInv(patterns[i].pattern, patterns[i].hasWild)
+//@   loop 2 invariant resolved(cb) <= iters2 && card(c.eventSubs) == old(card(c.eventSubs))
 //@   loop 3 invariant forall i int :: 0 <= i && i < len(patterns) ==> patterns[i].pattern != "" && predPatternInv(patterns[i].pattern, patterns[i].hasWild)
+//@   loop 3 invariant resolved(cb) <= iters2 - 1
 
 // handleSystemReset: listed resource patterns trigger a re-fetch, listed access patterns a
 // re-access, each only for matching entries; a throttle exists exactly when resetThrottle > 0.
